@@ -37,6 +37,7 @@ func (d *datadogRequestDec) Decode() error {
 		d.Message = ""
 		d.Service = ""
 		d.TsMs = 0
+		d.SourceType = ""
 		return d.DecodeEntry(dec)
 	})
 }
